@@ -6,6 +6,7 @@ import (
 	"context"
 	"fmt"
 	"github.com/transparency-dev/witness/internal/persistence"
+	psql "github.com/transparency-dev/witness/internal/persistence/sql"
 	"github.com/transparency-dev/witness/internal/verif/kit/seams"
 	"math/rand/v2"
 	"net/http"
@@ -81,6 +82,8 @@ func main() {
 	// a read held open across an accepted update must not decide what a LATER read returns
 	run.Floor("reads_issued_after_update_while_older_read_open", 40)
 	run.Units("overlap", run.Pick(64, 640), 16, func(unit int64, r *rand.Rand) { overlap(run, unit, r, dir) })
+	run.Floor("reads_after_update_with_cold_reader_open", 16)
+	run.Units("overlap_restart", run.Pick(32, 320), 16, func(unit int64, r *rand.Rand) { overlapRestart(run, unit, r, dir) })
 	// discriminating refreshes: own small witnesses, waits in parallel
 	run.Units("refresh", disc, 32, func(unit int64, r *rand.Rand) { refresh(run, unit, r, dir) })
 }
@@ -365,5 +368,102 @@ func overlap(run *ev.Run, unit int64, r *rand.Rand, dir string) {
 	run.Distinct("nontrivial", fmt.Sprintf("overlap/http=%v/first=%v/refresh=%v/%s/queued_behind_A=%v", viaHTTP, firstUse, next == size, kind, waited))
 	if got.code != 200 || !bytes.Equal(got.b, ret) {
 		run.Violate(fmt.Sprintf("read_after_accept_differs;older_read_open;http=%v", viaHTTP), fmt.Sprintf("a read issued after an accepted update (%d->%d) returned status %d and bytes that are not the update's result, while an older read of the same log was still open", size, next, got.code), unit, map[string]any{"store": kind, "returned_by_update": string(ret), "read": string(got.b)})
+	}
+}
+
+// overlapRestart: the same judgement as overlap, for the first read after a restart on a file-backed SQL
+// store. The witness stores a checkpoint and is "restarted" (new handle, new persistence, new Witness on the
+// same file, through the wrapping driver with two pooled connections so that the paused reader does not keep
+// the writer out). Read A is paused inside the driver right after its result set was closed - its SELECT is
+// complete and holds no lock, but the storage layer has not returned yet. An update is accepted; read B,
+// issued afterwards (and again after A was released), must return the update's bytes.
+func overlapRestart(run *ev.Run, unit int64, r *rand.Rand, dir string) {
+	u := gen.NewUniverse(r, gen.Opts{NLogs: 1, MaxSize: 30, Branches: 1})
+	st, err := wit.NewStore("sqlfile", dir)
+	if err != nil {
+		run.Inconclusive(err.Error())
+		return
+	}
+	keys, _ := wit.NewWitKeys(r, []bool{false, true}, true)
+	rn, err := wit.NewRunner(u, keys, st, nil)
+	if err != nil {
+		st.Close()
+		run.Inconclusive(err.Error())
+		return
+	}
+	l := u.Logs[0]
+	size := 1 + r.Uint64N(10)
+	if _, err := rn.W.Update(context.Background(), l.ID, 0, l.Honest(0, size), nil); err != nil {
+		st.Close()
+		run.Inconclusive("first update refused: " + err.Error())
+		return
+	}
+	path := st.Path
+	st.Close()
+	// restart
+	plan := &seams.SQLPlan{}
+	db := seams.OpenVSQLite(path, plan)
+	db.SetMaxOpenConns(2)
+	st2 := &wit.Store{Kind: "sqlfile", P: psql.NewPersistence(db), DB: db, Path: path}
+	defer st2.Close()
+	rn2, err := wit.NewRunner(u, keys, st2, nil)
+	if err != nil {
+		run.Inconclusive(err.Error())
+		return
+	}
+	paused, release := make(chan struct{}), make(chan struct{})
+	var once sync.Once
+	plan.AfterRowsClose = func() {
+		first := false
+		once.Do(func() { first = true })
+		if first {
+			close(paused)
+			<-release
+		}
+	}
+	aDone := make(chan struct{})
+	go func() { _, _ = rn2.W.GetCheckpoint(l.ID); close(aDone) }()
+	select {
+	case <-paused:
+	case <-aDone:
+		run.Count("cold_reader_not_paused")
+		return
+	case <-time.After(20 * time.Second):
+		close(release)
+		run.Inconclusive("watchdog: the cold read never reached the store")
+		return
+	}
+	next := size + uint64(r.IntN(3))
+	var ret []byte
+	var uerr error
+	uDone := make(chan struct{})
+	go func() {
+		ret, uerr = rn2.W.Update(context.Background(), l.ID, size, l.Honest(0, next), l.Branches[0].Consistency(size, next))
+		close(uDone)
+	}()
+	select {
+	case <-uDone:
+	case <-time.After(8 * time.Second):
+		// the update queues behind the paused reader on this build: not the situation under test
+		close(release)
+		<-uDone
+		<-aDone
+		run.Count("update_queued_behind_cold_reader")
+		return
+	}
+	if uerr != nil {
+		close(release)
+		<-aDone
+		run.Count("update_refused_while_cold_reader_open")
+		return
+	}
+	close(release)
+	<-aDone
+	got, gerr := rn2.W.GetCheckpoint(l.ID)
+	run.Count("evaluations")
+	run.Count("reads_after_update_with_cold_reader_open")
+	run.Distinct("nontrivial", fmt.Sprintf("overlap_restart/refresh=%v", next == size))
+	if gerr != nil || !bytes.Equal(got, ret) {
+		run.Violate("read_after_accept_differs;cold_reader_open_after_restart", fmt.Sprintf("after a restart, a read that began before an accepted update (%d->%d) and finished after it made a later read return other bytes than the update returned (err=%v)", size, next, gerr), unit, map[string]any{"returned_by_update": string(ret), "read": string(got)})
 	}
 }
